@@ -181,6 +181,18 @@ def _on_alarm(signum, frame):
     raise CallTimeout()
 
 
+def global_state():
+    """process-wide state a library call must leave alone (it changes what LATER calls of anything do): NumPy's floating-point error
+    handling and print options, the interpreter's recursion limit, the warnings filters, the global random generators"""
+    import random as _random
+    import warnings as _warnings
+    st = {"np.geterr": tuple(sorted(np.geterr().items())), "np.geterrcall": repr(np.geterrcall()),
+          "np.printoptions": repr(sorted((k, repr(v)) for k, v in np.get_printoptions().items())),
+          "sys.recursionlimit": sys.getrecursionlimit(), "warnings.filters": len(_warnings.filters),
+          "random.state": hash(_random.getstate()), "np.random.state": hash(np.random.get_state()[1].tobytes())}
+    return st
+
+
 def timed(fn, self_obj, args, kw):
     signal.signal(signal.SIGALRM, _on_alarm)
     signal.setitimer(signal.ITIMER_REAL, CALL_LIMIT)
@@ -431,6 +443,7 @@ def run_history(descs, emit):
                 ent[2] = h
         return events
 
+    gstate = [global_state()]
     for pos, desc in enumerate(descs):
         rec = {"i": desc.get("i", pos), "fn": desc["fn"]}
         try:
@@ -512,6 +525,11 @@ def run_history(descs, emit):
         refresh_caches()
         full = (pos % FULL_SWEEP == FULL_SWEEP - 1) or pos == len(descs) - 1
         rec["events"] = sweep(full)
+        gnow = global_state()
+        for gk in gnow:
+            if gnow[gk] != gstate[0].get(gk):
+                rec["events"].append(("global", "%s: %s -> %s" % (gk, str(gstate[0].get(gk))[:120], str(gnow[gk])[:120])))
+        gstate[0] = gnow
         rec["full"] = full
         emit(rec)
 
@@ -734,6 +752,12 @@ def analyse(job, pristine):
                               "what": "%s after %d earlier calls gives %s, alone in a fresh process %s" %
                                       (r["fn"], pos, describe(r["norm"]), describe(p))})
         for kind, label in r.get("events", []):
+            if kind == "global":
+                fails.append({"key": "global-state-changed:" + r["fn"], "index": pos,
+                              "what": "call %d (%s) left process-wide state changed - %s - so that later calls of the library (and of "
+                                      "anything else in the process) behave differently from the same calls in a fresh process" %
+                                      (pos, r["fn"], label)})
+                continue
             key = {"input": "input-mutated:", "value": "returned-mutated:", "shape": "shape-mutated:",
                    "cache": "cache-mutated:"}[kind] + r["fn"]
             fails.append({"key": key, "index": pos,
